@@ -1,5 +1,9 @@
 pub mod c01;
+pub mod c02;
 pub mod c03;
+pub mod c05;
+pub mod c07;
+pub mod c15;
 pub mod c12;
 pub mod c14;
 pub mod syncsys;
@@ -33,6 +37,20 @@ pub fn replay_file(path: &std::path::Path) -> i32 {
                 }
             }
         }
+        "c02-race" => match c02::replay(case) {
+            Ok(()) => {
+                println!("replay: no violation");
+                0
+            }
+            Err(e) => {
+                println!("replay: {e}");
+                println!("VIOLATION property=C02 replay={}", path.display());
+                1
+            }
+        },
+        "c07-trace" => verdict("C07", path, c07::replay(case)),
+        "c15-trace" => verdict("C15", path, c15::replay(case)),
+        "c05-case" => verdict("C05", path, c05::replay(case)),
         k if k.starts_with("c03-") => match c03::replay(case) {
             Ok(()) => {
                 println!("replay: no violation");
@@ -47,6 +65,20 @@ pub fn replay_file(path: &std::path::Path) -> i32 {
         k => {
             eprintln!("unknown replay kind {k}");
             2
+        }
+    }
+}
+
+fn verdict(prop: &str, path: &std::path::Path, r: Result<(), String>) -> i32 {
+    match r {
+        Ok(()) => {
+            println!("replay: no violation");
+            0
+        }
+        Err(e) => {
+            println!("replay: {e}");
+            println!("VIOLATION property={prop} replay={}", path.display());
+            1
         }
     }
 }
